@@ -83,6 +83,11 @@ RICH = [
      "settings": [{"omit_instanceID": "yes", "allow_choice_duplicates": "yes", "clean_text_values": "no"}]},
     {"survey": [{"type": "text", "name": "a", "label": "A"}],
      "settings": [{"omit_instanceID": "no", "allow_choice_duplicates": "no", "clean_text_values": "yes", "form_title": "T"}]},
+    # language names with a space in them
+    {"survey": [
+        {"type": "text", "name": "q", "label::English (en)": "Q", "label::French (fr)": "Qf", "hint::English (en)": "H", "hint::French (fr)": "Hf"},
+        {"type": "select_one c", "name": "s", "label::English (en)": "S", "label::French (fr)": "Sf", "media::image::English (en)": "s.png"}],
+     "choices": [{"list_name": "c", "name": "x", "label::English (en)": "X", "label::French (fr)": "Xf"}, {"list_name": "c", "name": "y", "label::English (en)": "Y", "label::French (fr)": "Yf"}]},
     # selects from files with parameters (spellings of the type must not matter to which parameters are allowed)
     {"survey": [
         {"type": "text", "name": "q", "label": "Q"},
@@ -179,6 +184,10 @@ def t_header_spacing(wb):
                 yield f"space:{s}:{h}", rename_col(wb, s, h, new), {}
                 new2 = "::".join([parts[0].replace("_", "  "), *parts[1:]])
                 yield f"space2:{s}:{h}", rename_col(wb, s, h, new2), {}
+            if any(" " in p_ for p_ in parts[1:]):
+                # a run of spaces inside a later token (a language name) is one space
+                new3 = "::".join([parts[0], *[p_.replace(" ", "  ") for p_ in parts[1:]]])
+                yield f"space-in-token:{s}:{h}", rename_col(wb, s, h, new3), {}
 
 
 def t_col_alias(wb):
